@@ -131,7 +131,7 @@ func (se *subscriptionEntry) prepareResponse(resp *requests.Response) *requests.
 }
 
 func (se *subscriptionEntry) Close() {
-	se.TryLock()
+	se.Lock()
 	isClosed := se.isClosed
 	se.Unlock()
 	if isClosed {
